@@ -612,6 +612,7 @@ func runRulesMode(enc *json.Encoder, rng *rand.Rand, nsets, size int, tmp string
 	for i := 0; i < 3; i++ {
 		mk(fmt.Sprintf("rt%d/target.go", i), genFile(rng, i, size))
 	}
+	nbase := len(targets) // the kitchen sink and the generated nestings
 	for i, p := range extra {
 		if b, err := os.ReadFile(p); err == nil {
 			if t, err := hutil.CheckTarget(tmp, fmt.Sprintf("x%d/%s", i, filepath.Base(p)), b); err == nil {
@@ -663,6 +664,8 @@ func runRulesMode(enc *json.Encoder, rng *rand.Rand, nsets, size int, tmp string
 		tg := targets[si%len(targets)]
 		if strings.Contains(theme, "pkgs") {
 			tg = pkgTargets[rng.Intn(len(pkgTargets))]
+		} else if theme == "contains" && nbase > 1 {
+			tg = targets[1+(si+rng.Intn(2))%(nbase-1)] // generated nestings: statement lists with loops and blocks inside
 		}
 		obs := rsObs{K: "rs", Set: si, Target: tg.name, Rules: rules, Parts: parts, Via: via, Theme: theme}
 		// the shape of the load history: per Load call, how many syntax / comment rules it contributed
